@@ -123,6 +123,21 @@ inductive LeafSpell : JV → Lit → Prop
 def CustomAgree (reg : Reg) : Prop :=
   ∀ n vs j l, reg.get? n = some .custom → LeafSpell j l → (reg.customParseLiteral n vs l).toR.toOption = (reg.customParse n j).toR.toOption
 
+/-- `CustomAgree` restricted to the custom scalars whose name satisfies `S` (the positions a request can reach) -/
+def CustomAgreeOn (reg : Reg) (S : String → Prop) : Prop :=
+  ∀ n vs j l, S n → reg.get? n = some .custom → LeafSpell j l → (reg.customParseLiteral n vs l).toR.toOption = (reg.customParse n j).toR.toOption
+
+/-- `Reach reg ty n`: the named type `n` is a POSITION inside values of type `ty`: the base of `ty`, or the base of a field's
+    type of an input object that is itself such a position (recursive input objects included). -/
+inductive Reach (reg : Reg) (ty : Ty) : String → Prop
+  | base : Reach reg ty ty.base
+  | field {n : String} {fs : List InField} {f : InField} :
+      Reach reg ty n → reg.get? n = some (.input fs) → f ∈ fs → Reach reg ty f.type.base
+
+/-- a set of type names closed under "field of an input object" -/
+def InputClosed (reg : Reg) (S : String → Prop) : Prop :=
+  ∀ n fs f, S n → reg.get? n = some (.input fs) → f ∈ fs → S f.type.base
+
 mutual
 /-- `AstOfJson reg ty j l`: `l` is the literal spelling (`astOfJson`) of the JSON value `j` at a position of
     type `ty`, and `j` is of the NATURAL JSON kind for `ty`:
